@@ -9,7 +9,7 @@ import tempfile
 import time
 
 RLIMIT = int(os.environ.get("PYVC_RLIMIT", "60000000"))
-WALL_S = int(os.environ.get("PYVC_WALL_S", "25"))
+WALL_S = int(os.environ.get("PYVC_WALL_S", "40"))
 
 
 def _solve(job):
@@ -19,11 +19,17 @@ def _solve(job):
     try:
         # Attempt schedule: the first attempt decides almost everything; an `unknown` is retried with other
         # (fixed, hence reproducible) random seeds / quantifier settings.  Any `unsat` is a proof; `sat` stops at once.
-        attempts = [({}, 1), ({"smt.random_seed": 7}, 1), ({"smt.random_seed": 23, "smt.mbqi": False}, 1)]
+        # E-matching first (every library axiom carries patterns; model-based instantiation over array sorts is slow and
+        # only needed for the few pattern-less clauses), then MBQI, then another seed
+        attempts = [({"smt.mbqi": False, "smt.arith.solver": 2}, 1), ({"smt.mbqi": False}, 1), ({}, 1),
+                    ({"smt.random_seed": 7, "smt.mbqi": False, "smt.arith.solver": 2}, 2)]
+        if "(div " in text or "(mod " in text:
+            # integer division / modulo by symbolic terms: the default (nla) arithmetic solver is the one that copes
+            attempts = [attempts[1], attempts[0]] + attempts[2:]
         res, model, reason = "unknown", None, ""
         for n_att, (opts, mult) in enumerate(attempts):
             s = z3.Solver()
-            s.set("rlimit", rlimit * mult)
+            s.set("rlimit", int(rlimit * mult))
             s.set("timeout", WALL_S * 1000)
             for k_, v_ in opts.items():
                 s.set(k_, v_)
